@@ -31,6 +31,8 @@ typedef struct vs_config {
   int stall_thread;
   int stall_any;  // 1: stall_at counts all scheduling points of that thread, 0: only its accesses to the watched object
   uint64_t stall_at;
+  int stall_thread2;   // optional second thread held at its stall_at2-th access (three- and four-party windows)
+  uint64_t stall_at2;
   uint64_t stall_len;
   // replay
   int n_replay;
